@@ -168,7 +168,9 @@ pub fn do_req(st: &mut State<'_>, r: Req) -> String {
         match r {
             Ok(v) => match unsafe { std::mem::transmute::<&mut Program<'_>, &mut Program<'_>>(p) }.manifest_json(unsafe { std::mem::transmute::<&Value<'_>, &Value<'_>>(&v) }, false) {
                 Ok(s) => format!("V {s}"),
-                Err(e) => outcome_str(&rt::eval_error_outcome(&e)),
+                // (the phase is part of the answer: evaluation promises a fully evaluated
+                // value, so a failure must not move from evaluation to manifestation)
+                Err(e) => format!("{} (while manifesting)", outcome_str(&rt::eval_error_outcome(&e))),
             },
             Err(e) => outcome_str(&rt::eval_error_outcome(&e)),
         }
